@@ -162,6 +162,14 @@ class Interp:
             return self.binop(op, a, b)
         if k == "?:":
             return self.ev(t[2]) if self.truth(self.ev(t[1])) else self.ev(t[3])
+        if k == "initlist":
+            if len(t[2]) == 1:
+                return self.ev(t[2][0])
+            if not t[2]:
+                return 0
+            raise Unknown("aggregate initialiser")
+        if k == "zero":
+            return 0
         if k in ("call", "mcall", "opcall", "ctor", "icall"):
             return self.oracle("call", t, self)
         if k in ("member", "param", "gvar", "this", "enum", "str", "lambda", "fnref", "method"):
@@ -270,6 +278,10 @@ class Interp:
                         raise Unknown("increment of %r" % (cur,))
                 elif k == "return":
                     return ("return", self.ev(e["x"]) if e.get("x") is not None else None)
+                elif k == "throw":
+                    return ("throw", e.get("type", "rethrow"))
+                elif k == "init" and "field" in e:
+                    self.effects.append(("store", ("member", e["field"], "['this']"), self.ev(e["x"])))
                 # calls as statements are evaluated when they are the root of an expression statement;
                 # sub-expressions are evaluated through their parents.  We only record effects of calls
                 # that the oracle flags as effectful.
